@@ -39,6 +39,7 @@ class EvalMixin:
         if name in self.c.ghostmaps:
             t = self.c.ghostmaps[name]
             srt = R if t == 'real' else (B if t == 'bool' else I)
+            if t not in ('int', 'bool', 'real'): t = self.resolve_type(t)
             return (('ghostmap', 'ghost:' + name, srt, t), 'ghostmap')
         c = self.const(name)
         if c is not None: return c
